@@ -530,6 +530,66 @@ def run(chk):
                 chk.corr_fail.append(({'expr': expr}, got, want))
                 chk.violation('impl-vs-spec', {'expr': expr}, {'impl': repr(got)[:200], 'spec': repr(want)})
             chk.nontrivial.add('mapfn:' + expr)
+    # ---- named function references: every registered function of arity 1-2 called through f#n, a variable bound to f#n,
+    # fn:apply and fn:function-lookup gives what the direct call gives (value and type, or an error on both sides), on typed
+    # arguments including nodes, arrays, maps and function items
+    import xml.etree.ElementTree as _ET3
+    from elementpath import XPathContext as _XC
+    NS3 = {'math': 'http://www.w3.org/2005/xpath-functions/math', 'map': 'http://www.w3.org/2005/xpath-functions/map', 'array': 'http://www.w3.org/2005/xpath-functions/array'}
+    PRE3 = {'http://www.w3.org/2005/xpath-functions': 'fn:', NS3['math']: 'math:', NS3['map']: 'map:', NS3['array']: 'array:', 'http://www.w3.org/2001/XMLSchema': 'xs:'}
+    SKIP3 = {'doc', 'collection', 'uri-collection', 'unparsed-text', 'unparsed-text-lines', 'json-doc', 'trace', 'error', 'environment-variable',
+             'available-environment-variables', 'random-number-generator', 'load-xquery-module', 'transform', 'unparsed-text-available', 'doc-available',
+             'current-dateTime', 'current-date', 'current-time', 'generate-id', 'parse-xml', 'parse-xml-fragment', 'json-to-xml', 'analyze-string'}
+    ARGS3 = ["1", "-1.5", "'a'", "''", "xs:untypedAtomic('1')", "true()", "()", "(1, 2)", "('a', 'b')", "/r", "/r/n", "/r/@a", "xs:date('2000-01-01')",
+             "xs:dayTimeDuration('PT1H')", "xs:QName('a')", "[1, 2]", "map{'a': 1}", "abs#1", "2.5", "xs:float('1.5')", "'en'", "xs:dateTime('2000-01-01T10:00:00Z')", "xs:time('10:00:00')"]
+    p3 = XPath31Parser(namespaces=NS3)
+    doc3 = _ET3.ElementTree(_ET3.XML('<r a="1">t<b>u</b><n>42</n></r>'))
+
+    def run3(call):
+        try:
+            r = p3.parse(call).evaluate(_XC(doc3))
+        except ElementPathError:
+            return ('err',)
+        except Exception as ex:
+            return ('exc', type(ex).__name__)
+        r = r if isinstance(r, list) else [r]
+        return ('ok', [(type(x).__name__, 'node' if hasattr(x, 'elem') or hasattr(x, 'document') else str(x)) for x in r])
+    calls3 = []
+    seen3 = set()
+    for (qname, arity), sig in sorted(p3.function_signatures.items(), key=lambda kv: (kv[0][0].namespace or '', kv[0][0].local_name, kv[0][1])):
+        pre = PRE3.get(qname.namespace)
+        if pre is None or qname.local_name in SKIP3 or arity not in (1, 2) or (qname, arity) in seen3:
+            continue
+        seen3.add((qname, arity))
+        f = pre + qname.local_name
+        for args in ([(a,) for a in ARGS3] if arity == 1 else [(a, b) for a in ARGS3[:14] for b in ARGS3[:8]]):
+            calls3.append((f, arity, ', '.join(args)))
+    if chk.tier == 'quick':
+        calls3 = rng.sample(calls3, 700)
+    # the repaired cases are always run
+    calls3 += [('fn:namespace-uri', 1, '()'), ('fn:namespace-uri', 1, '/r/text()'), ('math:sin', 1, 'abs#1'), ('fn:reverse', 1, 'abs#1'), ('map:size', 1, 'abs#1'),
+               ('fn:function-arity', 1, 'abs#1'), ('fn:for-each', 2, '(1, -2), abs#1'), ('fn:sum', 1, 'abs#1'), ('fn:one-or-more', 1, 'abs#1')]
+    for f, arity, a in calls3:
+        direct = run3(f'{f}({a})')
+        for form, expr in (('ref', f'{f}#{arity}({a})'), ('let', f'let $g := {f}#{arity} return $g({a})'), ('apply', f'apply({f}#{arity}, [{a}])'),
+                           ('lookup', f"function-lookup(xs:QName('{f}'), {arity})({a})")):
+            chk.evaluations += 1
+            chk.count('named-reference:' + form)
+            got = run3(expr)
+            if got[0] == 'exc':
+                chk.violation('foreign-exception', {'expr': expr}, got[1])
+            elif got != direct:
+                chk.corr_fail.append(({'expr': expr}, got, direct))
+                chk.violation('impl-vs-spec', {'expr': expr, 'direct call': f'{f}({a})'}, {'through the function item': repr(got)[:200], 'direct call': repr(direct)[:200]})
+        if direct[0] == 'ok':
+            chk.nontrivial.add(f'namedref:{f}({a})')
+    for expr in ('for-each((1, -2), abs(5))', 'filter((1, 2), boolean(0))', 'fold-left((1, 2), 0, max((1, 2)))', 'for-each((1, 2), string(9))',
+                 'function-arity(true())', 'function-name(abs(1))', 'for-each-pair((1, 2), (3, 4), concat("a", "b"))', 'fold-right((1, 2), 0, min((1, 2)))'):
+        chk.evaluations += 1
+        chk.count('call-expression-as-function-argument')
+        got = run3(expr)
+        if got != ('err',):
+            chk.violation('impl-vs-spec', {'expr': expr}, {'impl': repr(got)[:200], 'spec': 'XPTY0004: the argument is the value of a call expression, not a function item'})
     chk.rule = ('fixed corpus (closures in loops, closure factories, shadowing at call time, HOFs, stable sort, partial application) + seeded '
                 'typed random programs (depth <= 4) evaluated twice under the 3.1 and 3.0 parsers against C16.Model.eval; non-trivial = distinct program')
     chk.obligations.append({'name': 'correspondence:impl==reference semantics', 'ok': not chk.corr_fail,
